@@ -7,7 +7,7 @@ ASSUMPTIONS = [
     "referencing Node, all with ADD_DIALECT_SUPPORT, Mixed(Plain, Optional[NoSup]) whose nested classes have NO dialect support; every class logs its four hooks and the "
     "hook trace is part of each outcome, on the orjson (and msgpack, thorough) mixin with identity transports; modes: "
     "lazy_compilation, postponed (forward references unresolvable at class creation), eager (control)",
-    "history: k operations (k = 2 quick, 3 thorough) chosen by the solver from {to_dict, from_dict, to_<format>, from_<format>} x "
+    "history: k operations (quick: k = 2 over 20 operations; thorough: k = 2 over all 48 and k = 3 over 12) chosen by the solver from {to_dict, from_dict, to_<format>, from_<format>} x "
     "{no dialect, D1} x {Outer, Inner, Sub, Node, Holder, Mixed}; operations 1..k-1 and a dry run of the k-th run untraced on concrete "
     "data on the family and on a fresh eager twin and must have identical outcomes (value or exception type); the k-th runs traced "
     "on symbolic data on both",
@@ -18,14 +18,16 @@ ASSUMPTIONS = [
 
 def harnesses(tier, seed):
     hs = []
-    k = 2 if tier == "quick" else 3
     combos = [("lazy", "orjson"), ("postponed", "orjson"), ("lazy", "msgpack")]
     if tier != "quick":
         combos += [("eager", "orjson"), ("postponed", "msgpack")]
-    small = tier == "quick"
+    # quick: histories of 2 over 20 operations; thorough: histories of 2 over all 48 operations and of 3 over 12
+    plans = [(2, True)] if tier == "quick" else [(2, False), (3, "tiny")]
     for mode, fmt in combos:
-        kw = "k=%d, mode=%r, fmt=%r, small=%r" % (k, mode, fmt, small)
-        hs.append(gen.custom_harness("C14", "c14", Schema("%s_%s" % (mode, fmt), "int", ""), "hist", "k=%d, small=%r" % (k, small), kw))
+        for k, small in plans:
+            kw = "k=%d, mode=%r, fmt=%r, small=%r" % (k, mode, fmt, small)
+            hs.append(gen.custom_harness("C14", "c14", Schema("%s_%s_k%d" % (mode, fmt, k), "int", ""), "hist",
+                                         "k=%d, small=%r" % (k, small), kw))
     return hs
 
 
@@ -33,7 +35,7 @@ def run(tier, seed):
     hs = harnesses(tier, seed)
     return runner.run_property(
         "C14", hs, tier, seed, 600 if tier == "quick" else 3000,
-        bounds={"history_ops": 2 if tier == "quick" else 3, "op_alphabet": 20 if tier == "quick" else 48, "modes": len(hs)},
+        bounds={"history_ops": "2" if tier == "quick" else "2 (48 ops) and 3 (12 ops)", "op_alphabet": 20 if tier == "quick" else 48, "harnesses": len(hs)},
         assumptions=ASSUMPTIONS,
         functions_note=["lazy stubs and the methods they compile on first call", "postponed-evaluation stubs",
                         "dialect-specific packers/unpackers compiled on first use", "generic specialisation methods"])
